@@ -2,6 +2,7 @@
 import gens_split as G
 import splitcommon as SC
 from props import c09_copies as CP
+from props import c09_wide as WD
 
 ENGINE = "split"
 RULE = ("grammar documents whose entry keys, string keys and field names are drawn from pools of 2-3 names so that collisions of every "
@@ -20,7 +21,14 @@ RULE = ("grammar documents whose entry keys, string keys and field names are dra
         "IS the live first block of that library (member of blocks, the object in entries_dict / strings_dict), the wrapped duplicate is "
         "complete as written, positions kept unless the path sorts; a failure of the previous_block link alone on a path with a shipped block "
         "middleware in copy mode is attributed to known finding K13, every other failure is a violation; paths that change neither content nor "
-        "order are also compared with the splitter model; non-trivial = the document has a collision")
+        "order are also compared with the splitter model; non-trivial = the document has a collision. "
+        "Stream `wide` (props/c09_wide.py): an entry with 2..40 (and 100, 257, 1000; thorough also 63..66, 127..130, 255..258) fields whose names are pairwise distinct "
+        "except for ONE name occurring at indices i < j - every (n, i, j) up to n = 24 (thorough 32), beyond that every index that is an end "
+        "or T-1, T, T+1 of T = 8, 16, 17, 32, 64, 128, 256 once as i and once as j, plus random pairs -, or two different repeated names, or "
+        "one name three times; in a document with a clean entry of the same key after it (which must be the live one), before it, on both "
+        "sides, or after two such entries, sometimes with an unrelated block in between; through parse_string with the default stack and "
+        "Splitter.split or parse_string with the empty stack (a seeded part also compared with the splitter model, the rest oracle-only), "
+        "each returned library judged by the statement")
 TRUSTED = ["the ground truth (source blocks) is produced by the generator",
            "stream `history`: which member a remove/replace argument denotes is decided with the library's own Block.__eq__ (C19's subject); "
            "steps whose argument equals more than one member are left out"]
@@ -53,6 +61,8 @@ def generate(rng, tier):
     cases.extend({"stream": "history", "input": h} for h in hist)
     # duplicate-key documents through every path that copies or rebuilds the library (props/c09_copies.py)
     cases.extend(CP.generate(rng, tier))
+    # entries with many distinct field names and one repeat at every position pair (props/c09_wide.py)
+    cases.extend(WD.generate(rng, tier))
     return cases
 
 
@@ -459,6 +469,8 @@ def impl_history(case):
 
 
 def impl(case):
+    if case.get("stream") == "wide" or "wide" in case["input"]:
+        return WD.impl(case)
     if case.get("stream") == "copies" or "path" in case["input"]:
         return CP.impl(case)
     if case.get("stream") == "history" or "steps" in case["input"]:
